@@ -356,6 +356,16 @@ type barrier struct {
 	want    int
 	arrived int
 	ch      chan struct{}
+	hard    bool // no time-out: a call returns only once all [want] calls have arrived (or release() was called)
+	once    sync.Once
+}
+
+func (b *barrier) release() { b.once.Do(func() { close(b.ch) }) }
+
+func (b *barrier) count() int {
+	b.mu.Lock()
+	defer b.mu.Unlock()
+	return b.arrived
 }
 
 func (b *barrier) wait() {
@@ -364,10 +374,15 @@ func (b *barrier) wait() {
 	}
 	b.mu.Lock()
 	b.arrived++
-	if b.arrived == b.want {
-		close(b.ch)
-	}
+	full := b.arrived == b.want
 	b.mu.Unlock()
+	if full {
+		b.release()
+	}
+	if b.hard {
+		<-b.ch
+		return
+	}
 	select {
 	case <-b.ch:
 	case <-time.After(150 * time.Millisecond): // only raises concurrency; correctness never depends on it
@@ -1037,8 +1052,12 @@ type link struct {
 // dial retries: ServeConn gives the client ONE second to send its Tversion; on a
 // loaded machine a late goroutine start must not count as a failure.
 func dial(connKind string, msize, smsize int) (l *link, err error) {
+	return dialWith(connKind, msize, smsize, nil)
+}
+
+func dialWith(connKind string, msize, smsize int, wrap func(net.Conn) net.Conn) (l *link, err error) {
 	for try := 0; try < 12; try++ {
-		if l, err = dial1(connKind, msize, smsize); err == nil {
+		if l, err = dial1(connKind, msize, smsize, wrap); err == nil {
 			return l, nil
 		}
 		time.Sleep(time.Duration(200*(try+1)) * time.Millisecond)
@@ -1046,7 +1065,7 @@ func dial(connKind string, msize, smsize int) (l *link, err error) {
 	return nil, err
 }
 
-func dial1(connKind string, msize, smsize int) (*link, error) {
+func dial1(connKind string, msize, smsize int, wrap func(net.Conn) net.Conn) (*link, error) {
 	l := &link{S: &recS{smsize: smsize}, served: make(chan error, 1)}
 	l.ctx, l.cancel = context.WithCancel(context.Background())
 	if connKind == "pipe" {
@@ -1061,7 +1080,11 @@ func dial1(connKind string, msize, smsize int) (*link, error) {
 	}
 	ch := make(chan res, 1)
 	go func() {
-		s, err := p9p.CSession(l.ctx, &patchConn{Conn: l.cc, msize: uint32(msize)})
+		var cc net.Conn = &patchConn{Conn: l.cc, msize: uint32(msize)}
+		if wrap != nil {
+			cc = wrap(cc)
+		}
+		s, err := p9p.CSession(l.ctx, cc)
 		ch <- res{s, err}
 	}()
 	select {
@@ -1466,6 +1489,10 @@ func childMain(mode string) {
 		childReply()
 	case "flow":
 		childFlow()
+	case "barrier":
+		childBarrier()
+	case "reads":
+		childReads()
 	default:
 		fmt.Fprintln(os.Stderr, "unknown child mode", mode)
 		os.Exit(2)
